@@ -36,6 +36,8 @@ CFGS = {
     "churn2": ("P_churn2", dict(Threads=T3, MaxObj=3), INV),
     "wrap_fixed": ("P_wrap", dict(NF=0, GenMod=2, MaxObj=4), INV),
     "wrapw_fixed": ("P_wrapw", dict(NF=0, GenMod=2, MaxObj=5), INV),
+    "wrap2c_fixed": ("P_wrap2c", dict(Conts="{1, 2}", NF=0, GenMod=2, NAddr=4, MaxObj=4), INV),
+    "bug_wrap_cycle": ("P_wrap2c", dict(Conts="{1, 2}", NF=0, GenMod=2, NAddr=4, MaxObj=4, Bug='"wrap_not_detected"'), INV),
     "cas": ("P_cas", dict(MaxObj=4, NAddr=4), INV),
     "cas_nf0": ("P_cas", dict(NF=0, MaxObj=4, NAddr=4), INV),
     "cas2": ("P_cas2", dict(MaxObj=4, NAddr=4), INV),
